@@ -1,25 +1,24 @@
 import Nervus.Driver.Util
-import Nervus.Driver.OKey
-import Nervus.Driver.Codec
-import Nervus.Driver.WalFrame
-import Nervus.Driver.CapiSched
-import Nervus.Driver.Locks
-import Nervus.Driver.Handles
-import Nervus.Driver.SnapSched
 import Nervus.Driver.Backup
+import Nervus.Driver.CapiSched
+import Nervus.Driver.Codec
+import Nervus.Driver.Handles
+import Nervus.Driver.Locks
+import Nervus.Driver.OKey
+import Nervus.Driver.SnapSched
+import Nervus.Driver.WalFrame
 open Nervus.Driver
 
-/-- stream registry: one line per stream (kept one-per-line so that merges are unions) -/
-def streams : List (String × Stream) := [
-  ("okey", OKeyStream.stream),
-  ("codec", CodecStream.stream),
-  ("walframe", WalFrameStream.stream)
-  ("capi_sched", CapiSchedStream.stream),
-  ("locks", LocksStream.stream),
-  ("handles", HandlesStream.stream),
-  ("snapsched", SnapSchedStream.stream),
-  ("backup", BackupStream.stream)
-]
+/-- stream registry: one self-contained line per stream (merges are unions; run tools/fixmain.py after a merge) -/
+def streams : List (String × Stream) := ([] : List (String × Stream))
+  |>.cons ("okey", OKeyStream.stream)
+  |>.cons ("codec", CodecStream.stream)
+  |>.cons ("walframe", WalFrameStream.stream)
+  |>.cons ("capi_sched", CapiSchedStream.stream)
+  |>.cons ("locks", LocksStream.stream)
+  |>.cons ("handles", HandlesStream.stream)
+  |>.cons ("snapsched", SnapSchedStream.stream)
+  |>.cons ("backup", BackupStream.stream)
 
 def main (args : List String) : IO UInt32 := do
   match args with
